@@ -55,10 +55,15 @@ Definition asuffix_cmp (a b : asuffix) : outcome comparison :=
   end.
 Definition asuffix_pad : asuffix := {| as_weight := gen_alpine_suffix_pad_weight; as_number := Some 0%Z |}.
 
-(* weightAlpineSuffixString: the position in the generated table *)
-Fixpoint index_of (k : bytes) (l : list bytes) (i : nat) : nat :=
-  match l with [] => i | x :: r => if bytes_eqb x k then i else index_of k r (S i) end.
-Definition suffix_weight (name : bytes) : Z := Z.of_nat (index_of name gen_alpine_suffix_order 0).
+(* weightAlpineSuffixString: looked up in the generated (probed) table; a name outside it gets the
+   heaviest weight, as the Go function's final return does *)
+Fixpoint assoc_weight (tbl : list (bytes * Z)) (k : bytes) (dflt : Z) : Z :=
+  match tbl with
+  | [] => dflt
+  | (n, w) :: r => if bytes_eqb n k then w else assoc_weight r k dflt
+  end.
+Definition suffix_weight (name : bytes) : Z :=
+  assoc_weight gen_alpine_suffix_weights name (fold_left Z.max (map snd gen_alpine_suffix_weights) 0%Z).
 
 Definition al_suffixes_cmp (v w : alpine) : outcome comparison :=
   lexpadO asuffix_pad asuffix_cmp (al_suffixes v) (al_suffixes w).
